@@ -63,6 +63,55 @@ pub fn item_end(b: &[u8], p: usize, depth: u32) -> Option<usize> {
 }
 pub fn single_item(b: &[u8]) -> bool { item_end(b, 0, 0) == Some(b.len()) }
 
+// ---- well-formedness preserving rewrites of an encoding (type-agnostic): the typed decoders must treat them
+// the same way on both sides. Heads are widened (ints, lengths, tags: minicbor reads any width); definite maps
+// become indefinite. Arrays are left alone: the hand-written `[variant, field..]` decoders of pallas do not read
+// the break of an indefinite array (a read-through the tree model cannot express), and derived flat enums /
+// tuples reject it, so that rewrite would mostly produce errors.
+fn widen(out: &mut Vec<u8>, major: u8, v: u64, r: &mut Rng) {
+    let min = if v < 24 { 0 } else if v < 256 { 1 } else if v < 65536 { 2 } else if v < (1u64 << 32) { 3 } else { 4 };
+    let w = if r.chance(1, 3) { r.range(min, 4) } else { min };
+    match w {
+        0 => out.push((major << 5) | v as u8),
+        1 => { out.push((major << 5) | 24); out.push(v as u8); }
+        2 => { out.push((major << 5) | 25); out.extend((v as u16).to_be_bytes()); }
+        3 => { out.push((major << 5) | 26); out.extend((v as u32).to_be_bytes()); }
+        _ => { out.push((major << 5) | 27); out.extend(v.to_be_bytes()); }
+    }
+}
+/// rewrite the item at `p`, return its end
+fn rewrite(b: &[u8], p: usize, out: &mut Vec<u8>, r: &mut Rng) -> Option<usize> {
+    let (m, ai, v, q) = head(b, p)?;
+    match m {
+        0 | 1 | 6 => {
+            if ai == 31 { return None; }
+            widen(out, m, v, r);
+            if m == 6 { rewrite(b, q, out, r) } else { Some(q) }
+        }
+        7 => { out.extend(&b[p..q]); Some(q) }
+        2 | 3 => {
+            if ai == 31 { let e = item_end(b, p, 0)?; out.extend(&b[p..e]); return Some(e); }
+            widen(out, m, v, r);
+            let e = q + v as usize; out.extend(&b[q..e]); Some(e)
+        }
+        _ => {
+            if ai == 31 { let e = item_end(b, p, 0)?; out.extend(&b[p..e]); return Some(e); }
+            let n = if m == 4 { v } else { v * 2 };
+            let indef = m == 5 && r.chance(1, 3);
+            if indef { out.push(0xbf); } else { widen(out, m, v, r); }
+            let mut q = q;
+            for _ in 0..n { q = rewrite(b, q, out, r)?; }
+            if indef { out.push(0xff); }
+            Some(q)
+        }
+    }
+}
+pub fn variant_encoding(b: &[u8], r: &mut Rng) -> Option<Vec<u8>> {
+    let mut out = vec![];
+    let e = rewrite(b, 0, &mut out, r)?;
+    if e == b.len() && out != b { Some(out) } else { None }
+}
+
 /// value text with every retained raw forgotten
 fn strip_raws(t: &str) -> String {
     t.split(' ').map(|x| if x.starts_with('r') { "r-" } else { x }).collect::<Vec<_>>().join(" ")
@@ -103,7 +152,14 @@ pub fn generate(g: &mut Gen) {
         let mut r = Rng::new(seed);
         let Some((text, bytes)): Option<(String, Option<Vec<u8>>)> = schema_dispatch!(name, op_gen, &mut r) else { continue };
         let mut ops = vec![format!("enc {name} {seed} {text}")];
-        if let Some(b) = bytes { ops.push(format!("dec {name} {}", hex(&b))); }
+        if let Some(b) = bytes {
+            ops.push(format!("dec {name} {}", hex(&b)));
+            // the same value under a different (still well-formed) encoding; not for values that hold an opaque
+            // PlutusData item (`a..` token): its value text is a re-encoding, which does not keep head widths (C07)
+            if !text.split(' ').any(|t| t.starts_with('a')) {
+                if let Some(b2) = variant_encoding(&b, &mut r) { if single_item(&b2) { ops.push(format!("dec {name} {}", hex(&b2))); } }
+            }
+        }
         g.case(ops);
     }
 }
